@@ -154,8 +154,12 @@ impl Gossip {
         // have been dropped and we didn't clean up yet. In this case we'll ignore the existing
         // entry in "senders" and continue to create a new gossip session, overwriting the "dead"
         // entries.
+        //
+        // Checking the counter and incrementing it has to be one atomic step: otherwise the last
+        // handle can be dropped in between, the overlay is left and we would hand out a handle
+        // which is not backed by a subscription anymore.
         if let Some((to_gossip_tx, from_gossip_tx, guard)) = self.senders.read().await.get(&topic)
-            && guard.has_subscriptions()
+            && let Some(guard) = guard.try_clone()
         {
             #[cfg(p2panda_p2panda_verif)]
             crate::verif_c29::yield_point("stream_fast_window");
@@ -164,7 +168,7 @@ impl Gossip {
                 max_message_size,
                 to_gossip_tx.clone(),
                 from_gossip_tx.clone(),
-                guard.clone(),
+                guard,
             ));
         }
 
@@ -430,13 +434,40 @@ impl TopicDropGuard {
     }
 
     /// Returns current number of references to this topic.
+    #[cfg(test)]
     fn counter(&self) -> usize {
         self.counter.load(std::sync::atomic::Ordering::SeqCst)
     }
 
-    /// Returns true if there's still one or more references for this topic used.
-    fn has_subscriptions(&self) -> bool {
-        self.counter() >= INITIAL_COUNTER
+    /// Clones the guard and increments the reference counter, but only if there's still one or
+    /// more references for this topic used.
+    ///
+    /// Returns `None` if all references have been dropped already. The check and the increment
+    /// happen in a single atomic operation, a reference dropped concurrently can't get lost in
+    /// between.
+    fn try_clone(&self) -> Option<Self> {
+        let value = self
+            .counter
+            .fetch_update(
+                std::sync::atomic::Ordering::SeqCst,
+                std::sync::atomic::Ordering::SeqCst,
+                |value| (value >= INITIAL_COUNTER).then_some(value + 1),
+            )
+            .ok()?;
+
+        trace!(
+            topic = self.topic.fmt_short(),
+            counter = value + 1,
+            actor_id = %self.actor_ref.get_id(),
+            "clone topic drop guard +1"
+        );
+
+        Some(Self {
+            topic: self.topic,
+            counter: self.counter.clone(),
+            actor_ref: self.actor_ref.clone(),
+            ignore_drop: false,
+        })
     }
 
     /// Clone guard, but don't increment reference counter.
